@@ -24,7 +24,7 @@ QN = 'petl.util.materialise.CacheView.__iter__'
 
 
 def make(nkind):
-    @vc('C16.CacheView.rg.n_' + nkind, functions=[QN], props=['C16', 'C01'],
+    @vc('C16.CacheView.rg.n_' + nkind, functions=[QN], props=['C16', 'C01', 'C02'],
         assumptions=['the inner table yields the same rows on every pass; no clearcache() while iterators are live',
                      'rely/guarantee (guarantee == rely because all readers run this code); interference only at yield points '
                      '(CPython generators are not preempted: C01 is about interleaved next() calls, not threads)',
@@ -95,6 +95,8 @@ def make(nkind):
 
             def d1(ls, x, dout):
                 ctx.oblige('CacheView: the inner table is resumed exactly where the cache ended and step k yields row k', same_row(dout, ls.k.t))
+                ctx.oblige('CacheView: a step pulls exactly its own row from the inner table (no read-ahead: what is pulled for k rows does not depend on the table\'s length)',
+                           ls.base.pos == ls.k.t + 1)
 
             def exit1(ls, count):
                 box['served_all'] = True
